@@ -154,7 +154,7 @@ def collect(chk, settings, deps, outp, tot):
     for k in ("histories", "queries", "observations", "diffs_confirmed"):
         tot[k] += s[k]
     tot["covered"].update((d, c) for d, c in summary["covered"])
-    tot["compiling"].update()
+    tot["compiling"].update(summary.get("compiling", []))
     return s
 
 
@@ -251,11 +251,9 @@ def main(tier, replay=None):
         t0 = time.time()
         run_parallel(jobs, 3000)
         before = tot["observations"]
-        comp = 0
         for inp, outp, _ in jobs:
-            s = collect(chk, settings, deps, outp, tot)
-            comp = max(comp, s["dependents_compiling"])
-        compiling = max(compiling, comp)
+            collect(chk, settings, deps, outp, tot)
+        compiling = max(compiling, len(tot["compiling"]))
         log(f"[C20] settings {fk}:{settings['opt']}: {len(hs)} histories, {tot['observations'] - before} observations "
             f"in {time.time() - t0:.0f}s")
         if pi == 0:
@@ -290,6 +288,10 @@ def main(tier, replay=None):
         "settings_points": [flags_key(s) + ":" + s["opt"] for s in points],
         "core_cache_gen_ms": gen_ms,
         "incremental_only_differences": tot["incremental_only"],
+        "evaluations": tot["observations"],
         "distinct_nontrivial": len({(d, c) for d, c in tot["covered"] if c}),
-        "distinct_nontrivial_rule": "distinct (dependent, non-empty set of cached crates) pairs observed and compared",
+        "rule": "histories are enumerated by TLC from CrateCache (gen/use/drop/edit/query, <= 7 operations, ending in a "
+                "query after some use) and assigned to blocks of dependents with the seed so that every dependent is "
+                "observed with core, lib and core+lib cached; distinct non-trivial = distinct (dependent, non-empty set "
+                "of cached crates) pairs observed and compared with the all-source build",
     })
